@@ -316,7 +316,7 @@ func (s *ServerProc) Alive() bool { return !s.exited.Load() }
 
 // Metrics fetches and parses the Prometheus text exposition into series -> value.
 func (s *ServerProc) Metrics() (map[string]float64, error) {
-	cl := http.Client{Timeout: 10 * time.Second}
+	cl := http.Client{Timeout: 10 * time.Second, Transport: &http.Transport{DisableKeepAlives: true}}
 	resp, err := cl.Get("http://" + s.MetricsAddr + "/metrics")
 	if err != nil {
 		return nil, err
